@@ -560,15 +560,20 @@ def _is_literal(e: ast.AST) -> bool:
         return all(_is_literal(x) for x in e.elts)
     if isinstance(e, ast.Dict):
         return all(k is not None and _is_literal(k) and _is_literal(v) for k, v in zip(e.keys, e.values))
-    if isinstance(e, ast.Call) and isinstance(e.func, ast.Name) and e.func.id in ("frozenset", "tuple", "set", "list") and len(e.args) <= 1 and not e.keywords:
+    if isinstance(e, ast.Call) and not e.keywords and ast.unparse(e.func) in _PURE_CALLS:
         return all(_is_literal(a) for a in e.args)
     return False
+
+
+_PURE_CALLS = {"frozenset", "tuple", "set", "list", "dict", "ceil", "floor", "math.ceil", "math.floor", "int", "float", "round", "abs", "min", "max", "len", "sorted", "sum", "str",
+               "np.ceil", "np.floor", "np.sqrt", "math.sqrt", "np.log", "math.log", "np.exp", "math.exp", "timedelta", "datetime.timedelta", "pd.Timedelta"}
 
 
 def module_constants(tree: ast.Module, modname: str, known_constants: Set[str]) -> Dict[str, ast.AST]:
     """Module-level `NAME = <literal>` bindings whose name the rules do not know (spec table), bound exactly once."""
     counts: Dict[str, int] = {}
     vals: Dict[str, ast.AST] = {}
+    cand: Dict[str, ast.AST] = {}
     for n in ast.walk(tree):
         if isinstance(n, ast.Name) and isinstance(n.ctx, (ast.Store, ast.Del)):
             counts[n.id] = counts.get(n.id, 0) + 1
@@ -585,8 +590,18 @@ def module_constants(tree: ast.Module, modname: str, known_constants: Set[str]) 
             tgt, val = st.target.id, st.value
         if tgt is None or f"{modname}:{tgt}" in known_constants or counts.get(tgt, 0) != 1 or tgt.startswith("__"):
             continue
-        if _is_literal(val):
-            vals[tgt] = val
+        cand[tgt] = val
+    # a constant may be computed from other new constants (MIN = ceil(0.9 * MAX)): fold those in first, then test for literal-ness
+    changed = True
+    while changed:
+        changed = False
+        for tgt, val in list(cand.items()):
+            if tgt in vals:
+                continue
+            v2 = _Renamer({k: v for k, v in vals.items()}, {}).visit(copy.deepcopy(val)) if vals else val
+            if _is_literal(v2):
+                vals[tgt] = v2
+                changed = True
     return vals
 
 
